@@ -930,10 +930,21 @@ func (env *Env) elabCall(x ECall) (Val, error) {
 			return Val{}, err
 		}
 		return Val{T: intLit(int64(P.sorts.typeID(t))), GoT: mathInt}, nil
-	case "ifaceptr": // pointer payload of an interface value
+	case "ifaceptr": // pointer payload of an interface value; optional second argument: its pointer type, e.g. "*Line"
 		v, err := env.elab(x.Args[0])
 		if err != nil {
 			return Val{}, err
+		}
+		if len(x.Args) == 2 {
+			ts, ok := x.Args[1].(EStr)
+			if !ok {
+				return Val{}, fmt.Errorf("ifaceptr: second argument must be a type string")
+			}
+			t, err := P.resolveType(env.pkg, ts.V)
+			if err != nil {
+				return Val{}, err
+			}
+			return Val{T: app("Int", "i_val", v.T), GoT: t}, nil
 		}
 		return Val{T: app("Int", "i_val", v.T), GoT: mathInt}, nil
 	case "fresh": // reference allocated during the call
